@@ -67,8 +67,15 @@ def gen_expr(rng, consts, depth, stats):
     return Node(f"{at}{sp}{op}{sp}{bt}", v, prec)
 
 
+DENSE = ['"', "\\", "\x00", "\n", "\t", "'", "a", "Z", "0", "{", "}", ":", ",", "/", "?", "%", "\u00e9", "\U0001f600"]
+
+
 def gen_string(rng):
-    n = rng.choice([0, 1, 2, 5, 9, 20])
+    n = rng.choice([0, 1, 2, 5, 9, 20, 20, 70, 130, 260])
+    if n >= 70:
+        # long texts without a blank (JSON, paths, quoted lists) dense with characters that need an escape: whatever lays a long
+        # literal out over several lines must not cut through an escape sequence
+        return "".join(rng.choice(DENSE) for _ in range(n))
     s = "".join(rng.choice(STRING_ALPHABET) for _ in range(n))
     return s
 
